@@ -232,14 +232,16 @@ Value gen_cli(uint64_t seed, const std::string& tier)
     if (maybe(0.3)) opt("anisotropic_factor", istr(g.range(0, 3)));
     if (maybe(0.3)) opt("divideBy2", istr(g.range(0, 1)));
     if (maybe(0.3)) opt("R0", fmt("%g", g.chance(0.5) ? 1e-5 : g.loguniform(1e-8, 0.5)));
-    if (maybe(0.5)) opt("geometry", istr(g.range(0, 3)));
-    if (maybe(0.5)) opt("problem", istr(g.range(0, 3)));
-    if (maybe(0.5)) opt("alpha_coeff", istr(g.range(0, 3)));
-    if (maybe(0.5)) opt("beta_coeff", istr(g.range(0, 1)));
+    if (maybe(0.6)) opt("geometry", istr(g.chance(0.3) ? 3 : g.range(0, 3)));
+    if (maybe(0.6)) opt("problem", istr(g.chance(0.4) ? g.range(2, 3) : g.range(0, 3)));
+    if (maybe(0.6)) opt("alpha_coeff", istr(g.chance(0.4) ? 3 : g.range(0, 3)));
+    if (maybe(0.6)) opt("beta_coeff", istr(g.range(0, 1)));
     if (maybe(0.4)) opt("alpha_jump", fmt("%g", g.chance(0.3) ? 0.0 : g.uniform(0.3, 1.2)));
-    if (maybe(0.5)) {
-        opt("kappa_eps", fmt("%g", g.uniform(0.0, 0.4)));
-        opt("delta_e", fmt("%g", g.chance(0.5) ? g.uniform(0.0, 0.2) : g.uniform(1.0, 1.6)));
+    if (maybe(0.7)) {
+        // shape parameters: the same two options mean (kappa, delta) for Shafranov and (epsilon, e) for Czarny
+        bool czarny_like = g.chance(0.5);
+        opt("kappa_eps", fmt("%g", czarny_like ? g.uniform(0.1, 0.4) : g.uniform(0.0, 0.35)));
+        opt("delta_e", fmt("%g", czarny_like ? g.uniform(1.0, 1.6) : g.uniform(0.0, 0.2)));
     }
     if (maybe(0.4)) opt("DirBC_Interior", istr(g.range(0, 1)));
     if (maybe(0.4)) opt("FMG", istr(g.range(0, 1)));
@@ -311,6 +313,50 @@ void run_cli(const Value& plan, Result& r)
         std::cerr.rdbuf(olderr);
     }
     r.probe(outcome.substr(0, outcome.find(':')));
+    // The shipped catalogue of test cases (geometry x problem x coefficients): a combination for which no source term
+    // exists must be rejected, never run with whatever the object held before.  (Last occurrence of an option wins.)
+    {
+        int geometry = 0, problem = 0, alpha = 1, beta = 0;
+        bool malformed = false;
+        for (size_t k = 1; k + 1 < a.size(); k++) {
+            const std::string& key = a[k];
+            auto num = [&](int& dst) {
+                char* end = nullptr;
+                long v    = strtol(a[k + 1].c_str(), &end, 10);
+                if (end == a[k + 1].c_str() || *end)
+                    malformed = true;
+                else
+                    dst = (int)v;
+            };
+            if (key == "--geometry") num(geometry);
+            else if (key == "--problem") num(problem);
+            else if (key == "--alpha_coeff") num(alpha);
+            else if (key == "--beta_coeff") num(beta);
+        }
+        ProblemSpec ps;
+        ps.geometry = geometry;
+        ps.problem  = problem;
+        ps.coeff    = alpha == 0 ? 0 : (alpha == 1 ? (beta ? 2 : 1) : alpha == 2 ? (beta ? 4 : 3) : (beta ? 6 : 5));
+        ps.p1 = 0.3;
+        ps.p2 = 1.4;
+        bool supported = geometry >= 0 && geometry <= 3 && problem >= 0 && problem <= 3 && alpha >= 0 && alpha <= 3 &&
+                         beta >= 0 && beta <= 1;
+        if (supported) {
+            try {
+                Problem p = make_problem(ps);
+                supported = p.source != nullptr && p.exact != nullptr && p.bc != nullptr;
+            }
+            catch (const std::exception&) {
+                supported = false;
+            }
+        }
+        r.probe(supported ? "catalogue_supported" : "catalogue_unsupported");
+        if (!malformed && !supported && outcome == "returned:0")
+            r.fail("C20.unsupported_test_case_accepted",
+                   fmt("geometry=%d problem=%d alpha_coeff=%d beta_coeff=%d has no shipped source term but the command "
+                       "line ran to completion; %s",
+                       geometry, problem, alpha, beta, r.signature.c_str()));
+    }
     // nothing else to judge here: a crash, sanitizer report, failed assertion or deadlock kills the worker and is
     // classified by the driver; the three outcomes above are all "rejected cleanly or completed".
 }
